@@ -1,6 +1,7 @@
 #pragma once
 #include "frame.h"
 #include "value.h"
+#include "verif_hooks.h"
 
 #include <vector>
 #include <chrono>
@@ -48,7 +49,11 @@ namespace sqf::runtime
         template<class _Rep, class _Period>
         void suspend(std::chrono::duration<_Rep, _Period> duration)
         {
+#ifdef SQFVM_RUNTIME_VERIF
+            m_wakeup_timestamp = sqf::runtime::verif::now() + duration;
+#else
             m_wakeup_timestamp = std::chrono::system_clock::now() + duration;
+#endif
             m_suspended = true;
         }
         void unsuspend() { m_suspended = false; }
